@@ -99,3 +99,42 @@ Proof.
   - repeat constructor.
   - eexists. split; [vm_compute; reflexivity|]. vm_compute. reflexivity.
 Qed.
+
+(* round 3: findall unifies the bag only AFTER the enumeration of G is complete.  What is collected - the list of
+   instances and the variable counter, or the fact that G ended in an error - is a function of the call, the template,
+   the goal and the state of the call (findall_collected), fixed before the bag l is looked at; the bag is then unified
+   with that list in the store of the call.  So G runs in the state of the call whatever the bag is (unbound, closed or
+   partial list, sharing variables with G or not), and no binding flows from the bag into the enumeration of G. *)
+Theorem C09_findall_bag_after_enumeration : forall call t g s,
+  exists r : option (list term * nat),
+    r = findall_collected call t g s /\
+    forall l, builtin call (s_ "findall") [t; g; l] s =
+              Some (match r with
+                    | None => ([], true)
+                    | Some (es, b) => unify_st {| sto := sto s; nxt := b |} l (mk_list es)
+                    end).
+Proof. exact findall_bag_after_enumeration. Qed.
+Print Assumptions C09_findall_bag_after_enumeration.
+
+(* non-vacuity: a goal whose SECOND answer exists only while V is unbound-or-b, called with a partial list as bag that
+   shares V with the goal through the first instance:
+     r(V,X) :- X = V.      r(V,X) :- V = b, X = c.      t(V,T) :- findall(X, r(V,X), [a|T]).
+   On its own r(V,X) has the answers X = V and V = b, X = c, so the instances are [V, c] and [a|T] = [V, c] gives
+   V = a, T = [c].  (Matching the bag while r is still running would bind V to a after the first answer and lose the
+   second: T = [].) *)
+Definition bag_prog : program :=
+  [ {| c_name := d "r"; c_args := [SVar (d "V"); SVar (d "X")]; c_body := BCall (d "=") [SVar (d "X"); SVar (d "V")] |};
+    {| c_name := d "r"; c_args := [SVar (d "V"); SVar (d "X")];
+       c_body := BAnd (BCall (d "=") [SVar (d "V"); SAtom (d "b")]) (BCall (d "=") [SVar (d "X"); SAtom (d "c")]) |};
+    {| c_name := d "t"; c_args := [SVar (d "V"); SVar (d "T")];
+       c_body := BCall (d "findall") [SVar (d "X"); SFun (d "r") [SVar (d "V"); SVar (d "X")]; SPair (SAtom (d "a")) (SVar (d "T"))] |} ].
+Example C09_bag_nonvacuous :
+  good_program bag_prog /\
+  exists ir, compile_program bag_prog = Some ir /\
+  map (fun x => (den (sto x) (TVar 0), den (sto x) (TVar 1))) (fst (query 10 ir (d "t") [TVar 0; TVar 1] {| sto := []; nxt := 2 |}))
+  = [(TAtom (d "a"), mk_list [TAtom (d "c")])].
+Proof.
+  split.
+  - repeat constructor.
+  - eexists. split; [vm_compute; reflexivity|]. vm_compute. reflexivity.
+Qed.
